@@ -437,7 +437,7 @@ def norm(t, hyp=frozenset()):
 
 def expand(t, defs):
     """substitute symbols by their definitions (A := L·H(L))"""
-    if not isinstance(t, tuple):
+    if not isinstance(t, tuple) or not t:
         return t
     if t[0] == "sym" and t in defs:
         return defs[t]
